@@ -41,13 +41,7 @@ var finishTypes = map[string]bool{
 
 // rootName returns the name of the outermost named function enclosing fn.
 func rootName(fn *ssa.Function) string {
-	for fn.Parent() != nil {
-		fn = fn.Parent()
-	}
-	if recv := fn.Signature.Recv(); recv != nil {
-		return core.TypeName(recv.Type()) + "." + core.N(fn)
-	}
-	return core.N(fn)
+	return core.FuncKey(fn)
 }
 
 func c17Isolate(c *core.Ctx, r *core.Reporter) {
